@@ -39,6 +39,13 @@ def run():
     except ImportError:
         print("setup: cwcwidth missing")
         bad += 1
+    # Wrap.tla's WhiteSpace is what Python's \s matches on str
+    import re
+    pyws = {c for c in range(0x110000) if re.match(r"\s", chr(c))}
+    specws = {9, 10, 11, 12, 13, 28, 29, 30, 31, 32, 133, 160, 5760, 8232, 8233, 8239, 8287, 12288} | set(range(8192, 8203))
+    if pyws != specws:
+        print(f"setup: whitespace assumption broken: {sorted(pyws ^ specws)}")
+        bad += 1
     try:
         import pty
         m, s = pty.openpty()
